@@ -4,6 +4,7 @@ import copy
 from hypothesis import strategies as st
 
 from asyncfix import FMsg, FTag
+from asyncfix.errors import FIXError
 from asyncfix.protocol.common import FOrdStatus
 from asyncfix.protocol.order_single import FIXNewOrderSingle
 from vlib import ordermodel as X
@@ -18,7 +19,7 @@ def RULE(tier):
     return (
         "A real FIXNewOrderSingle against a single-order exchange simulator (only FIX 4.4 matrix transitions, every "
         "request answered) joined by two FIFOs (requests -> exchange, reports -> client). Actions: client new / cancel "
-        "/ replace(price, qty) whenever the order permits, deliver next report, exchange consumes next request "
+        "/ replace(price, qty) / a no-op replace (documented refusal, must change nothing) whenever the order permits, deliver next report, exchange consumes next request "
         "(pending-ack | immediate accept | reject), exchange spontaneous ack / reject / partial fill / full fill / "
         "decide pending request / unsolicited cancel / expire / suspend / resume. Bounded-exhaustive DFS over all "
         f"action sequences to depth {DEPTH[tier]} (state-hash dedup) plus Hypothesis walks up to {WALK[tier]} actions with drawn ClOrdID "
@@ -85,6 +86,7 @@ def enabled(w):
             acts.append(("client_replace", "px"))
             acts.append(("client_replace", "qty-up"))
             acts.append(("client_replace", "qty-down"))
+            acts.append(("client_replace", "noop"))
     if w.to_cl:
         acts.append(("deliver",))
     if w.to_ex:
@@ -146,6 +148,20 @@ def apply(w, act, bad, frac=0.5, newpx=None, newqty=None):
                     w.flags.add("request-racing-fill")
             if w.rejects_seen:
                 w.flags.add("request-after-reject")
+            if k == "client_replace" and act[1] == "noop":
+                # documented refusal (FIXError "no price / qty change"); a refused call must leave the order untouched
+                before = (o.clord_id, o.orig_clord_id, str(o.status), o.price, o.qty)
+                try:
+                    o.replace_req(o.price, float("nan"))
+                    bad("noop-replace-accepted", "replace_req() with unchanged price/qty did not raise FIXError")
+                except FIXError:
+                    pass
+                after = (o.clord_id, o.orig_clord_id, str(o.status), o.price, o.qty)
+                if before != after:
+                    bad("refused-request-changes-order", f"a refused replace_req() changed the order: {before} -> {after}")
+                w.flags.add("refused-noop-replace")
+                check_step(w, bad)
+                return
             if k == "client_cancel":
                 m = o.cancel_req()
             else:
@@ -153,13 +169,13 @@ def apply(w, act, bad, frac=0.5, newpx=None, newqty=None):
                 if newpx is not None and newpx == o.price:
                     newpx = o.price + 0.5  # replace_req documents FIXError for "no change": not a defect
                 if newqty is not None and (newqty == o.qty or (how == "qty-down" and newqty > o.qty)):
-                    newqty = o.qty + 5.0 if how == "qty-up" else max(o.qty / 2.0, 0.5)
+                    newqty = o.qty + 5.0 if how == "qty-up" else o.qty / 2.0
                 if how == "px":
                     m = o.replace_req(newpx if newpx is not None else o.price + 1.0, float("nan"))
                 elif how == "qty-up":
                     m = o.replace_req(float("nan"), newqty if newqty is not None else o.qty + 5.0)
                 else:
-                    m = o.replace_req(float("nan"), newqty if newqty is not None else max(o.qty / 2.0, 0.5))
+                    m = o.replace_req(float("nan"), newqty if newqty is not None else o.qty / 2.0)
             if m[FTag.ClOrdID] in w.sent_ids:
                 bad("clordid-reused/sent", f"request sent with ClOrdID {m[FTag.ClOrdID]!r} used before: {w.sent_ids}")
             w.to_ex.append(m)
